@@ -248,6 +248,7 @@ def _get_object_shape_id(
     links_props: Optional[list[bool]] = None,
     links: Optional[list[bool]] = None,
     has_implicit_fields: bool = False,
+    sources: Optional[list[str]] = None,
 ) -> uuid.UUID:
     parts = [coll_type]
     parts.append(":".join(map(str, subtypes)))
@@ -257,6 +258,10 @@ def _get_object_shape_id(
         parts.append(":".join(chr(c._value_) for c in cardinalities))
     string_id = "\x00".join(parts)
     string_id += f'{has_implicit_fields!r};{links_props!r};{links!r}'
+    if sources:
+        # The source types of polymorphic elements ([is Foo].bar) are
+        # part of the descriptor, so they must be part of its id.
+        string_id += ';' + ":".join(sources)
     return uuidgen.uuid5(s_obj.TYPE_ID_NAMESPACE, string_id)
 
 
@@ -591,6 +596,10 @@ def _describe_object_shape(
             sources.append(mt)
 
     assert len(subtypes) == len(element_names)
+    poly_sources = [
+        str(src.get_name(ctx.schema)) if src != mt else ''
+        for src in sources
+    ]
     type_id = _get_object_shape_id(
         base_type_name,
         subtypes,
@@ -599,6 +608,7 @@ def _describe_object_shape(
         links_props=link_props,
         links=links,
         has_implicit_fields=implicit_id,
+        sources=poly_sources if any(poly_sources) else None,
     )
 
     if type_id in ctx.uuid_to_pos:
